@@ -61,7 +61,26 @@ def check_no_value(e):
         return None if is_np(r) else "no default, yet calling with no value returned %r instead of NotPassed" % (r,)
     t2, r2 = quiet_call(e, d)
     if t2 == "ok":
-        return None if canon(r) == canon(r2) else "the default is valid for the element but the no-value call did not return it converted as if supplied"
+        if canon(r) != canon(r2):
+            return "the default is valid for the element but the no-value call did not return it converted as if supplied"
+        # the result is the caller's: editing it must not change what the NEXT no-value call yields
+        before = canon(r)
+        try:
+            if isinstance(r, list):
+                r.append("__edited__")
+            elif isinstance(r, dict):
+                r["__edited__"] = 1
+            elif hasattr(r, "_dict") and isinstance(r._dict, dict):
+                r._dict["__edited__"] = 1
+        except BaseException:  # noqa
+            pass
+        # (where the result IS the default object - an element that hands values back as they are - the edit went into the default
+        #  itself, so the law is restated on the default as it is now)
+        t3, r3 = quiet_call(e, NP)
+        t4, r4 = quiet_call(e, default_of(e))
+        if t3 != "ok" or t4 != "ok" or canon(r3) != canon(r4):
+            return "a second no-value call, made after the first result was edited in place, yields %r, not the default converted as if supplied (%r)" % (r3, r4)
+        return None
     if t2 in ("rej", "terr"):
         same = canon(r) == canon(d) if not isinstance(r, (dict, list)) or True else False
         return None if (r is d or (type(r) is type(d) and r == d)) and same else "the default is not valid for the element, yet the no-value call did not return it as-is"
@@ -177,7 +196,8 @@ def run(tier, seed, replay=None):
             why = check_no_value(e)
             if why:
                 fid = None
-                if "default" in getattr(e, "properties", {}) or {} and type(e).__name__ == "ObjectMeta":
+                _props = getattr(e, "properties", None)
+                if isinstance(_props, dict) and "default" in _props and type(e).__name__ == "ObjectMeta":
                     fid = "C05-K14"
                 res.violation(dict(payload, kind="oracle", element=repr(e)[:300], finding=fid, what=why))
         # ---- objects: every subset of supplied declared properties -------------------------------------
